@@ -656,6 +656,86 @@ const ruleText = "operation sequences against a slice model (front = index 0); a
 	"Distinct = enumerated cases (injective encoding) + hash-distinct random cases outside the enumerated scope. " +
 	"Lenient: the element accompanying the slice-backed queue's empty error is not constrained (Peek on the empty slice-backed queue only has to agree with it)."
 
+// ---------------------------------------------------------------------------
+// pointer elements: Search reports exactly the POINTERS currently held
+
+// PtrCase: Ops[i] = k >= 0: Enqueue(the k-th of four pointers, of which #0 and #1 point to equal integers), -1: Dequeue, -2: Clear.
+type PtrCase struct {
+	Ops []int `json:"ops"`
+}
+
+func ptrProp(c PtrCase, r *pbt.R) error {
+	if len(c.Ops) > 200 {
+		return nil
+	}
+	a, b, x, y, twin := 7, 7, 9, 0, 7
+	tab := []*int{&a, &b, &x, &y}
+	type pq interface {
+		Enqueue(*int)
+		Peek() *int
+		Search(*int) bool
+		Size() int
+		Clear()
+	}
+	run := func(name string, q pq, deq func() *int, model []*int) error {
+		for i, op := range c.Ops {
+			switch {
+			case op >= 0:
+				p := tab[op%len(tab)]
+				q.Enqueue(p)
+				model = append(model, p)
+			case op == -1:
+				got := deq()
+				if len(model) == 0 {
+					if got != nil {
+						return fmt.Errorf("%s of *int, ops %v: Dequeue on an empty queue returned a non-nil pointer", name, c.Ops[:i+1])
+					}
+				} else {
+					if got != model[0] {
+						return fmt.Errorf("%s of *int, ops %v: Dequeue did not return the pointer enqueued first", name, c.Ops[:i+1])
+					}
+					model = model[1:]
+				}
+			default:
+				q.Clear()
+				model = nil
+			}
+			if q.Size() != len(model) {
+				return fmt.Errorf("%s of *int, ops %v: Size() = %d, want %d", name, c.Ops[:i+1], q.Size(), len(model))
+			}
+			if len(model) > 0 {
+				if got := q.Peek(); got != model[0] {
+					return fmt.Errorf("%s of *int, ops %v: Peek does not return the pointer the next Dequeue returns", name, c.Ops[:i+1])
+				}
+			}
+			for j, p := range append(append([]*int(nil), tab...), &twin) {
+				held := false
+				for _, m := range model {
+					held = held || m == p
+				}
+				if got := q.Search(p); got != held {
+					return fmt.Errorf("%s of *int, ops %v: Search(pointer #%d) = %v, want %v (pointers #0, #1 and the never-enqueued #4 point to equal integers but are different pointers)", name, c.Ops[:i+1], j, got, held)
+				}
+			}
+		}
+		return nil
+	}
+	sq := queue.New[*int]()
+	if err := run("Queue", sq, func() *int { v, _ := sq.Dequeue(); return v }, nil); err != nil {
+		return err
+	}
+	lq := queue.NewLinked(tab[2])
+	if err := run("LQueue", lq, lq.Dequeue, []*int{tab[2]}); err != nil {
+		return err
+	}
+	twins := false
+	for _, op := range c.Ops {
+		twins = twins || op == 0 || op == 1
+	}
+	r.NonTrivialIf(twins, "a pointer with an equal-valued twin was enqueued")
+	return nil
+}
+
 func TestProp(t *testing.T) {
 	pbt.Run(t, "C05",
 		&pbt.Check[Case]{
@@ -675,6 +755,22 @@ func TestProp(t *testing.T) {
 			Prop:  propFor(true),
 			Fixed: fixed, OutOfEnum: outOfEnumFor(true),
 			RapidQuick: 1500, RapidThorough: 20000,
+		},
+		&pbt.Check[PtrCase]{
+			Name: "pointers",
+			Rule: "both queues instantiated with *int: Enqueue of one of four pointers (two of them point to equal integers) / Dequeue / Clear; after every call Size, Peek (pointer identity) and Search of all four pointers and of a never-enqueued fifth pointer to an equal integer: Search reports exactly the POINTERS held. " +
+				"Enumerated: every sequence of up to 4 (thorough 5) operations over {Enqueue p0..p3, Dequeue, Clear}; random: up to 40. Non-trivial = a pointer that has an equal-valued twin was enqueued.",
+			Enum: func(s pbt.Src, thorough bool) PtrCase {
+				n := 4
+				if thorough {
+					n = 5
+				}
+				return PtrCase{Ops: pbt.Seq(s, 0, n, func(s pbt.Src) int { return s.Intn(6) - 2 })}
+			},
+			Gen:        func(s pbt.Src, _ bool) PtrCase { return PtrCase{Ops: pbt.Seq(s, 0, 40, func(s pbt.Src) int { return s.Intn(7) - 2 })} },
+			Prop:       ptrProp,
+			OutOfEnum:  func(c PtrCase, th bool) bool { return len(c.Ops) > 5 },
+			RapidQuick: 200, RapidThorough: 3000,
 		},
 	)
 }
